@@ -106,3 +106,74 @@ func TestVerifBoundedWaitOne(t *testing.T) {
 	rec(nil)
 	fmt.Printf("VERIF-BOUNDED: name=WaitOne bound=%d cases=%d nontrivial=%d failures=%d first=%q\n", n, cases, nontrivial, fails, first)
 }
+
+// TestVerifBoundedWaitVerdict: bounded stand-in for the verdict of `wait name` (waitBackgroundOne
+// is outside the modelled subset): for the named background command being `true` or `false`,
+// started with or without `!`, alone or next to another entry, waiting for it by name fails the
+// script (Fatalf) exactly when the command's outcome contradicts its polarity.
+func TestVerifBoundedWaitVerdict(t *testing.T) {
+	_, e1 := exec.LookPath("true")
+	_, e2 := exec.LookPath("false")
+	if e1 != nil || e2 != nil {
+		fmt.Printf("VERIF-BOUNDED: name=WaitVerdict bound=0 cases=0 nontrivial=0 failures=0 first=%q\n", "skipped: no `true`/`false` programs")
+		return
+	}
+	cases, nontrivial, fails := 0, 0, 0
+	first := ""
+	for _, prog := range []string{"true", "false"} {
+		for _, neg := range []bool{false, true} {
+			for _, others := range [][]string{nil, {"true"}, {"false"}, {"false", "true"}} {
+				for pos := 0; pos <= len(others); pos++ {
+					cases++
+					nontrivial++
+					ts := &TestScript{ctxt: context.Background()}
+					var waits []chan struct{}
+					add := func(name, p string, n bool) {
+						cmd := exec.Command(p)
+						cmd.Stdout = &strings.Builder{}
+						cmd.Stderr = &strings.Builder{}
+						if err := cmd.Start(); err != nil {
+							t.Fatal(err)
+						}
+						wait := make(chan struct{})
+						go func() { cmd.Wait(); close(wait) }()
+						ts.background = append(ts.background, backgroundCmd{name, cmd, wait, n})
+						waits = append(waits, wait)
+					}
+					for i := 0; i <= len(others); i++ {
+						if i == pos {
+							add("x", prog, neg)
+						}
+						if i < len(others) {
+							add("", others[i], false)
+						}
+					}
+					failed := false
+					func() {
+						defer func() {
+							if r := recover(); r != nil {
+								if r == failNow {
+									failed = true
+								} else {
+									panic(r)
+								}
+							}
+						}()
+						ts.waitBackgroundOne("x")
+					}()
+					for _, w := range waits {
+						<-w
+					}
+					want := (prog == "true") == neg // success with !, or failure without it
+					if failed != want {
+						fails++
+						if first == "" {
+							first = fmt.Sprintf("wait x: command %q started with neg=%v next to %q (position %d): script failed=%v, want %v", prog, neg, others, pos, failed, want)
+						}
+					}
+				}
+			}
+		}
+	}
+	fmt.Printf("VERIF-BOUNDED: name=WaitVerdict bound=3 cases=%d nontrivial=%d failures=%d first=%q\n", cases, nontrivial, fails, first)
+}
